@@ -1,22 +1,18 @@
-use nvh::props::c08::{LrCase, check_lowrank_exact};
+use nvh::engine::{Part, Tier, new_runner};
+use nvh::props::c02::Order;
+use proptest::strategy::{Strategy, ValueTree};
+use rayon::prelude::*;
 fn main() {
     nvh::engine::install_quiet_panic_hook();
-    let p = std::env::args().nth(1).unwrap();
-    let v: serde_json::Value = serde_json::from_str(&std::fs::read_to_string(p).unwrap()).unwrap();
-    let c: LrCase = serde_json::from_value(v["case"].clone()).unwrap();
-    let o = check_lowrank_exact(&c);
-    println!("{:?}", o.failure);
-    // variants: perturb the duplicate draws
-    for eps in [1e-6, 1e-3, 1e-1] {
-        let mut c2 = c.clone();
-        c2.xs[0] = vec![eps, -eps];
-        c2.xs[1] = vec![-eps * 0.5, eps * 2.0];
-        let o = check_lowrank_exact(&c2);
-        println!("eps {eps}: {:?} {:?}", o.failure.map(|f| f.message), o.skipped);
+    let strat = Order.strategy(Tier::Quick);
+    let mut hist = vec![0u64; 40];
+    let mut judged = 0u64;
+    for b in 0..400 {
+        let mut runner = new_runner(12345 + b, "X", "order-cal");
+        let cases: Vec<_> = (0..2500).map(|_| strat.new_tree(&mut runner).unwrap().current()).collect();
+        let res: Vec<Option<f64>> = cases.par_iter().map(|c| nvh::props::c02::order_estimate(c)).collect();
+        for r in res.into_iter().flatten() { judged += 1; let k = ((r * 10.0).floor() as i64).clamp(0, 39) as usize; hist[k] += 1; }
     }
-    // more draws
-    let mut c3 = c.clone();
-    c3.xs.push(vec![0.3, 0.9]); c3.xs.push(vec![-0.1, -0.5]); c3.xs.push(vec![0.2, 0.1]);
-    let o = check_lowrank_exact(&c3);
-    println!("more draws: {:?} {:?}", o.failure.map(|f| f.message), o.skipped);
+    println!("judged {judged}");
+    for (k, h) in hist.iter().enumerate() { if *h > 0 { println!("order {:.1}-{:.1}: {h}", k as f64 / 10.0, (k + 1) as f64 / 10.0); } }
 }
